@@ -2,16 +2,9 @@
 //!
 //! usage: vcheck <ID> [--tier quick|thorough] [--replay FILE] [--strict]
 
-mod binrun;
-mod engine;
-mod field;
-mod gen;
-mod interp;
-mod irmatch;
-mod obs;
-mod props;
+use cv::{engine, obs, props};
 
-use engine::*;
+use cv::engine::*;
 use std::path::PathBuf;
 
 fn main() {
